@@ -1,5 +1,6 @@
 import Req.Driver.L.C18Codec
 import Req.Driver.L.C18Pipe
+import Req.Driver.L.C18Clone
 /-! Driver lanes of C18 (classification and binding; the pipeline lane is in `C18Pipe`). -/
 namespace Req.Driver.L.C18
 open Req.Proto Req.Result
@@ -44,7 +45,8 @@ def lanes : List (String × (List String → String)) := [
   ("c18classify", laneClassify),
   ("c18ct", laneCt),
   ("c18bind", laneBind),
-  ("c18pipe", lanePipe)
+  ("c18pipe", lanePipe),
+  ("c18clone", laneClone)
 ]
 
 end Req.Driver.L.C18
